@@ -2,7 +2,7 @@
 loop, idempotent retries, a cache miss never becomes the answer, validators on the path."""
 import re
 
-from ..core import CheckError, Site, op_base, op_const, op_local, op_place
+from ..core import CheckError, Site, op_base, op_const, op_local, op_place, switches
 from ..prov import reads_locals, sources
 
 SCAN = r'ContinuityStreamCache::(scan_tail\w*|scan_sidecar_backwards\w*|try_read_last_seq\w*)$|::scan_sidecar_backwards\w*$|::scan_tail\w*$'
@@ -184,7 +184,80 @@ def run(ctx):
             ctx.ob('C04.3', f, 'cache-result:' + s.name, verdict is None,
                    '%s result is consumed by %s%s' % (s.name, ' > '.join(chain) or 'match', '' if verdict is None else ' — ' + verdict), line=s.line)
     ctx.floor('C04.3', 'cache-read calls in ContinuityStore', n, 15)
+    c0412(ctx)
     c044(ctx)
+
+
+def c0412(ctx):
+    """a cache FAULT is answered from truth, never from another cache."""
+    P = ctx.prog
+    ctx.rule('C04.12', 'a cache fault is answered from truth, not from another cache: inside the Err arm of a matched cache read of ContinuityStore (the blocks only that edge reaches) no branch is decided by a second cache read unless every way out of it passes a truth read (replay_events / EventLog replay) or an error return. "The checkpoint sidecar is unreadable, but the full sidecar exists, so nothing to do" makes the answer depend on which cache broke.')
+    TRUTH = r'ContinuityStore::replay_events$|^rip_log::EventLog::(replay\w*|read\w*)$'
+    narms = 0
+    for f in P.find_fns(r'^ripd::continuities::ContinuityStore::'):
+        reads = [s for s in f.calls(CACHE_READ) if not re.search(CACHE_READ_EXCLUDE, s.callee) and P.sigs.get(s.callee, {}).get('output', '').startswith('core::result::Result<')]
+        if not reads:
+            continue
+        errs = set(_err_blocks_of(f))
+        truth_bbs = [c.bb for c in f.calls(TRUTH)]
+        for s in reads:
+            sw = None
+            for (bi, on, ts, els) in switches(f):
+                o = f.origin(on)
+                if o[0] == 'rv' and o[1]['k'] == 'discr' and op_place({'c': o[1]['pl']}) is not None and o[1]['pl'].get('l') == s.dest['l'] and not o[1]['pl'].get('p'):
+                    sw = (bi, ts, els)
+            if sw is None:
+                continue
+            bi, ts, els = sw
+            err_t = ts.get('1', els)
+            if err_t is None:
+                continue
+            # the arm: what the Err target dominates (an or-pattern `Ok(None) | Err(_)` shares the target with the miss
+            # arm — still the code a fault runs). An empty arm, whose target is the join after the match, is no arm.
+            others = {x for x in f.succs(bi) if x != err_t}
+            ok_t = ts.get('0')
+            if ok_t is not None and f.blocks[ok_t]['t']['k'] == 'switch' and not [st_ for st_ in f.blocks[ok_t]['s'] if 'rv' in st_ and st_['rv'].get('k') != 'discr']:
+                # the nested test of the same match (`Ok(Some(_))` vs `Ok(None)`): its arms count, not the test block
+                others.discard(ok_t)
+                others |= {x for x in f.succs(ok_t) if x != err_t}
+            others = {x for x in others if f.blocks[x]['t']['k'] != 'unreachable'}
+            h_ = f.innermost_loop(bi)
+            if any(err_t in f.reach([x], stop=((h_,) if h_ is not None else ())) for x in others):
+                continue
+            region = {b for b in f.reachable() if f.dom(err_t, b)}
+            if not region:
+                continue
+            narms += 1
+            ctx.touch(f)
+            # a second look at a cache AFTER truth was read inside the arm (replay rebuilds the caches) is a retry, not a decision
+            inner = [c for c in reads if c.bb in region and c is not s and not any(t_ in region and f.dom(t_, c.bb) for t_ in truth_bbs)]
+            bad = None
+            for (b2, on2, ts2, els2) in switches(f):
+                if b2 not in region:
+                    continue
+                rl = reads_locals(f, on2)
+                dec = [c for c in inner if c.dest['l'] in rl]
+                if not dec:
+                    continue
+                # the way out of the arm: the first blocks outside the region
+                exits = {x for b in region for x in f.succs(b) if x not in region}
+                for tgt in set(list(ts2.values()) + [els2]):
+                    if tgt is None:
+                        continue
+                    if tgt in exits or (tgt in region and not f.must_pass(truth_bbs + list(errs), tgt, list(exits))):
+                        if tgt in exits and tgt in truth_bbs:
+                            continue
+                        bad = (dec[0], b2)
+            ctx.ob('C04.12', f, 'fault-answered-from-truth:' + s.name, bad is None,
+                   'the Err arm of %s consults no other cache on its way to the truth read' % s.name if bad is None else
+                   'inside the Err arm of %s the result of %s (line %s) decides whether truth is read at all: with that cache intact and this one torn, the answer comes from neither truth nor a valid cache' % (s.name, bad[0].name, bad[0].line), line=s.line)
+    ctx.floor('C04.12', 'Err arms of matched cache reads in ContinuityStore', narms, 3)
+
+
+def _err_blocks_of(f):
+    out = [bi for (bi, si, st) in f.aggregates(r'^core::result::Result$', 'Err')]
+    out += [c.bb for c in f.calls(r'FromResidual<.*>>::from_residual$')]
+    return out
 
 
 def reads_locals_args(f, site):
